@@ -129,9 +129,14 @@ def run(tier, seed, opens):
                     ok += 1
                 return p_acc, p_change, p_idx
 
-            for step in range(n_steps):
-                op = rng.choice(['new_key', 'new_key', 'new_key_change', 'get_key', 'get_keys', 'key_for_path', 'key_for_path', 'new_account', 'reopen'])
-                acc = rng.choice(sorted(accounts))
+            # scripted histories first (the same for every wallet), then random ones
+            script = [('key_for_path', 0, 0, 2), ('key_for_path', 0, 0, 1), ('new_key', 0), ('new_key', 0), ('get_keys', 0), ('new_account',),
+                      ('new_key', 0), ('set_default_account', 1), ('new_key', 0), ('new_key_change', 0), ('get_key', 0), ('key_for_path', 0, 1, 3),
+                      ('key_for_path', 0, 1, 1), ('reopen',), ('new_key_change', 0), ('new_key', 1), ('set_default_account', 0)]
+            for step in range(len(script) + n_steps):
+                forced = script[step] if step < len(script) else None
+                op = forced[0] if forced else rng.choice(['new_key', 'new_key', 'new_key_change', 'get_key', 'get_keys', 'key_for_path', 'key_for_path', 'new_account', 'reopen'])
+                acc = forced[1] if forced and len(forced) > 1 else rng.choice(sorted(accounts))
                 try:
                     if op in ('new_key', 'new_key_change'):
                         change = 1 if op == 'new_key_change' else 0
@@ -157,12 +162,15 @@ def run(tier, seed, opens):
                             if r:
                                 issued.setdefault((acc, 0), set()).add(r[2])
                     elif op == 'key_for_path':
-                        change, idx = rng.choice([0, 1]), rng.randrange(0, 7)
+                        change, idx = (forced[2], forced[3]) if forced else (rng.choice([0, 1]), rng.randrange(0, 7))
                         k = w.key_for_path([change, idx], account_id=acc)
                         history.append('key_for_path([%d, %d], account=%d)' % (change, idx, acc))
                         r = check_key(k, op, acc, change, idx)
                         if r:
                             issued.setdefault((acc, change), set()).add(idx)
+                    elif op == 'set_default_account':
+                        w.default_account_id = acc
+                        history.append('default_account_id = %d' % acc)
                     elif op == 'new_account':
                         if len(accounts) < 3:
                             a = w.new_account()
